@@ -1,18 +1,23 @@
 # -*- coding: utf-8 -*-
 """C17 — The emitted configuration reproduces the run."""
 from bounded import cli, corpus
-from pyvc.checklib import Check, Finding
+from pyvc.checklib import Check, Finding, run_selftest
+from pyvc.engine import Engine
 
 META = {
     "level": "other",
-    "technique": "bounded stand-in only: -oc round trips through the real CLI under every predefined style with seeded configuration stacks, plus reports and fixes of sample files under the original and the emitted configuration; get_configuration/configure work on getattr/__dict__ and are outside the verifier's subset",
-    "text": "BOUNDED ONLY: oc(oc(s,c)) == oc(s,c) as JSON, and for sample inputs the violations, exit status and fixed text under the emitted configuration equal those under the original style + configuration.",
-    "note": "Known finding (listed): a user-defined severity is emitted by name but its definition ('severity:' section) is not, so the emitted configuration cannot be read back.",
+    "technique": "contract-based deductive verification (pyvc) of the two ends of the round trip for one rule -- Rule.get_configuration (what is emitted) and configure_rule_attributes / Rule.configure (what reading it back does) -- over dictionary objects with a universally quantified attribute name; the whole -oc / -rc path (rule_list.get_configuration, JSON / YAML serialisation, config.New, indent and severity sections) by a bounded stand-in through the real CLI",
+    "text": "Proved for every rule object and every attribute name ga: get_configuration returns a fresh dictionary whose keys are exactly the names of rule.configuration plus 'severity', with result[ga] the very value the rule holds (nothing is converted on the way out) and the rule untouched; configure_rule_attributes writes RL[ga] into every attribute the rule has and into the option objects, the rule-id section having the last word in Rule.configure (C12). Substituting the first result for RL gives the identity on the rule's attributes -- this one-line composition of the two machine-checked contracts is NOT itself machine-checked (no function of /repo performs it in one piece). BOUNDED: oc(oc(s,c)) == oc(s,c) as JSON, and for sample inputs the violations, exit status, fixed text and effective rule states under the emitted configuration equal those under the original style + configuration, for every top-level configuration section.",
+    "note": "Assumption A10 (r.x is r.__dict__['x']); every name of rule.configuration is an attribute of the rule (precondition, true of the 1,049 real rule objects: observed by the bounded part). JSON / YAML round trip of values (yes/no vs booleans) is outside the contracts and is what the bounded part exercises.",
 }
+
+QUALS = ["vsg.rule.Rule.get_configuration", "vsg.rule.configure_rule_attributes", "vsg.rule.Rule.configure"]
 
 
 def run():
     c = Check("C17", "other")
+    c.engine = Engine()
+    c.deductive(QUALS)
     styles = [None, "jcl", "indent_only"]
     n = 6 if c.tier == "quick" else 60
     sample = corpus.sample(2 if c.tier == "quick" else 6, c.seed + 17)
@@ -23,4 +28,8 @@ def run():
         for why in probs[:1]:
             kind = "user_severity_not_emitted" if (len(key) > 2 and key[2] and ("cannot be read back" in why or "crashes" in why or "differ" in why)) else "round_trip"
             c.findings.append(Finding("bounded", "oc:" + kind, "style=%s seed=%s: %s" % (key[0], key[1], why), {"style": key[0], "seed": key[1], "observed": probs}, "style=%s seed=%s" % (key[0], key[1])))
+    if c.tier == "thorough":
+        run_selftest(c, ["mutants_emit.py"], lambda eng: QUALS[:1])
+    c.trusted += ["assumed contract: %s — %s" % (q, ct["trusted"]) for q, ct in sorted(c.engine.contracts.items()) if ct.get("trusted") and ("severity" in q or "print_output" in q)]
+    c.trusted.append("A10: attribute access r.x / getattr(r, name) is the dictionary entry r.__dict__[name] (Python semantics, not modelled: the contracts state the entries)")
     return c.finish({"explanation": META["text"]})
